@@ -241,6 +241,30 @@ def run(ctx):
     ctx.notes.append("Variant=orig (code before the repairs) violates: " + m.violation.splitlines()[0])
     ctx.tlc_runs[-1][2].violation = None  # expected counterexample
 
+    # 1b. (P) unbounded safety of the abstract machine: IndInv is inductive for any Jobs, Nodes and
+    # any length (spec/ResizeAbsProof.tla, TLAPS).  A statement about the specification, never a
+    # verdict about the code; a failed or missing proof makes the run inconclusive.  Two negative
+    # controls (thorough tier, ~1 min each) show that the obligations constrain something: Start without its `no job runs` guard,
+    # End(DONE) without its `every target node reported` guard.
+    if True:
+        ok, nobl, nfail, tail = vlib.tlapm("ResizeAbsProof", ctx.scratch, timeout=900)
+        if ok is not True:
+            ctx.inconclusive.append("TLAPS did not prove ResizeAbsProof (%s): %s" % (
+                "failed obligations" if ok is False else "no verdict", tail[-600:]))
+        else:
+            ctx.notes.append("TLAPS: all %d obligations of ResizeAbsProof proved (IndInv inductive for any Jobs/Nodes; "
+                             "AtMostOneJob, NoHandlerStuck, DoneHadAllOks, MembershipStep)" % nobl)
+            ctrls = [("start-unguarded", [("    /\\ arunning = {} /\\ Fresh(j)\n    /\\ arunning' = {j}",
+                                           "    /\\ Fresh(j)\n    /\\ arunning' = arunning \\cup {j}")]),
+                     ("done-unguarded", [("    /\\ res = \"DONE\" => atarget[j] \\subseteq aoks[j]\n", "")])]
+            for name, edits in (ctrls if thorough else []):
+                cok, cn, cf, ctail = vlib.tlapm("ResizeAbsProof", ctx.scratch, subst={"ResizeAbs.tla": edits}, timeout=900)
+                if cok is False:
+                    ctx.notes.append("TLAPS negative control %s: %d of %d obligations fail, as they must" % (name, cf, cn))
+                else:
+                    ctx.inconclusive.append("TLAPS negative control %s did not fail (%s): the proof is vacuous or the tool misbehaved: %s"
+                                            % (name, cok, ctail[-300:]))
+
     # 2. (G)+(A)
     two = json.dumps({"Members": ["n0", "n1"], "ReplicaN": 2, "PartN": 12, "Hasher": "mod", "Shards": 8})
     runs = []
